@@ -42,6 +42,8 @@ HEADERS["vt-win32"] = ("class V { public: virtual void f(); virtual int g(int); 
 HEADERS["win64-sysv"] = ("void __attribute__((ms_abi)) m1(int); void __attribute__((sysv_abi)) s1(int); typedef void (__attribute__((ms_abi)) *mcb)(int);\n"
                          "struct HoldsM { mcb f; };\n", ["--", "--target=x86_64-pc-windows-msvc"])
 
+HEADERS["corefloat"] = ("float ff(double d); struct F { float a; double b; long double c; };\n", ["--use-core", "--no-convert-floats"])
+
 # construct -> (regex on whitespace-free token text, minimal minor version, minimal edition or None)
 # Source: Rust release notes (stabilisation versions), NOT bindgen/features.rs.
 CONSTRUCTS = {
@@ -169,7 +171,7 @@ def run(ck, only=None):
     wd = ck.wd
     versions = [50] + list(range(51, 87)) + [NIGHTLY]
     editions = [None, "2018", "2021", "2024"]
-    hnames = list(HEADERS) if ck.tier == "thorough" else ["all", "corestr", "abi", "abiptr", "str", "bigrec", "vt-win32"]
+    hnames = list(HEADERS) if ck.tier == "thorough" else ["all", "corestr", "abi", "abiptr", "str", "bigrec", "vt-win32", "corefloat"]
     jobs, meta = [], {}
     for hn in hnames:
         src, flags = HEADERS[hn]
@@ -187,7 +189,34 @@ def run(ck, only=None):
             jobs.append({"id": f"{hn}|default", "args": job_args(hp, flags, None, None)})
             for ed in editions[1:]:
                 jobs.append({"id": f"{hn}|default|{ed}", "args": job_args(hp, flags, None, ed)})
-    res = common.run_jobs(jobs, wd, timeout=30)
+    # the library API lets target and edition be set in either order: both orders must give the same verdict and the same text
+    order_jobs = []
+    if not only:
+        hp_o = os.path.join(wd, "t_order.h")
+        open(hp_o, "w").write(HEADERS["str"][0] + HEADERS["fn"][0])
+        for v in versions:
+            for ed in editions[1:]:
+                if v < EARLIEST:
+                    continue
+                for order in ("target-edition", "edition-target"):
+                    ops = [["rust_target", vname(v)], ["rust_edition", ed]]
+                    if order == "edition-target":
+                        ops.reverse()
+                    order_jobs.append({"id": f"order|{v}|{ed}|{order}", "mode": "gen_ops", "ops": [["header", hp_o], ["generate_cstr", True], ["formatter", "none"]] + ops})
+    res = common.run_jobs(jobs + order_jobs, wd, timeout=30)
+    for v in versions:
+        for ed in editions[1:]:
+            a, b = res.get(f"order|{v}|{ed}|target-edition"), res.get(f"order|{v}|{ed}|edition-target")
+            if a is None or b is None:
+                continue
+            ck.count()
+            ck.nontriv(("order", v, ed))
+            va = (a["status"], a.get("err_kind"), a.get("text"))
+            vb = (b["status"], b.get("err_kind"), b.get("text"))
+            supported = v == NIGHTLY or EDITION_MIN[ed] <= v
+            if va != vb or (not supported and not (b["status"] == "err" and b.get("err_kind") == "UnsupportedEdition")):
+                ck.violation(f"call-order target={vname(v)} edition={ed}", {"header": "order", "target": v, "edition": ed,
+                             "why": f"rust_target().rust_edition() gives {va[:2]}, rust_edition().rust_target() gives {vb[:2]}" + ("" if supported else " (the pair is unsupported: both must be UnsupportedEdition)")})
     texts = {}
     for jid, key in meta.items():
         ck.count()
